@@ -578,8 +578,10 @@ Definition edge_at_node (ts : tseq) (x : Z) (c : Z) : Z :=
 (* arrays of N + 1 entries (the virtual root has no parent) *)
 Definition parent_at (ts : tseq) (x : Z) : list Z := map (parent_at_node ts x) (zseq (ts_N ts + 1)).
 Definition edges_at (ts : tseq) (x : Z) : list Z := map (edge_at_node ts x) (zseq (ts_N ts + 1)).
-Definition num_edges_at (ts : tseq) (x : Z) : Z :=
-  zlen (filter (fun ed => covers ed x) (ts_edges ts)).
+(* number of edge rows (ids) covering x *)
+Definition covb (ts : tseq) (x : Z) (e : Z) : bool :=
+  match get (ts_edges ts) e with Ok ed => covers ed x | _ => false end.
+Definition num_edges_at (ts : tseq) (x : Z) : Z := zlen (filter (covb ts x) (zseq (num_edges ts))).
 
 (* the [core] machine (the one the theorems are about) agrees with the implementation on
    everything except the tracked counts, which it does not maintain *)
